@@ -87,6 +87,8 @@ theorem oqi_createTask (s : Stack) (k : TaskKind) (h : isOfferK k = false) : oqi
 @[simp] theorem oqi_with_sendLog (s : Stack) (x : List (Dest × (Bool × Nat))) : oqi { s with sendLog := x } = oqi s := rfl
 @[simp] theorem oqi_with_outgoing_sendLog (s : Stack) (x : Outgoing) (y : List (Dest × (Bool × Nat))) : oqi { s with outgoing := x, sendLog := y } = oqi s := rfl
 @[simp] theorem oqi_with_findLog (s : Stack) (x : List (Nat × Nat)) : oqi { s with findLog := x } = oqi s := rfl
+@[simp] theorem oqi_with_findMarks (s : Stack) (x : List (Nat × Nat)) : oqi { s with findMarks := x } = oqi s := rfl
+@[simp] theorem oqi_markFind (s : Stack) (n : Nat) : oqi (s.markFind n) = oqi s := rfl
 @[simp] theorem oqi_with_offLog (s : Stack) (x : List (Nat × OEv × Nat)) : oqi { s with offLog := x } = oqi s := rfl
 @[simp] theorem oqi_logOffer (s : Stack) (i : Nat) (e : OEv) : oqi (s.logOffer i e) = oqi s := rfl
 @[simp] theorem oqi_with_flushLog (s : Stack) (x : List (Dest × List SDEntry)) : oqi { s with flushLog := x } = oqi s := rfl
